@@ -22,7 +22,7 @@ func init() {
 	register(&propDef{
 		ID: "C08",
 		Meta: propMeta{
-			Explanation: "Decides structural necessary conditions (nothing is executed): (R08a) for every registered signer that can both sign and verify, a sigerrors.NotSignedError value is constructed somewhere in the code reachable from its verifier (frozen, reasoned exceptions: pgp, where an unsigned input is not an OpenPGP message at all), and Signer.IsSigned calls the verifier with digest checking off, answers true on a nil error, false on exactly NotSignedError and passes every other error on; (R08b) both sides of each container format agree on what belongs to the signature: the MSI digesters and the tar digester skip the two signature streams; the JAR digester and the JAR patch builder consult one keepFile predicate, the VSIX mangler deletes exactly what its keepFile rejects and digests the rest; DigestXapTar strips the trailer from the directory before hashing it; the Debian signer neither digests _gpg* members nor leaves the member of the same role in place; xmldsig.Sign removes an existing Signature before digesting; (R08c) formats whose signature is a trailer after the container: the client transform of the XAP signer determines where the zip ends from the trailer, as the verifier does, before looking for the central directory; (R08d) replacement is exact: the Debian signer marks a member for replacement only under equality of its name with \"_gpg\"+role, InsertMSISignature adds or deletes each of the two signature streams on every success path, and DigestPE feeds nothing into the image digest after imageHasher.finish(). (R08e) every value that reaches InsertMSISignature as the extended digest is nil or the result of PrehashMSI called with SignOpts.Hash (never a stream read back from the file); (R08f) Signer.IsSigned tells NotSignedError and ErrNoKey apart with a type switch, so no value that may be one of them (followed through results, phis and parameters module-wide) is passed to fmt.Errorf with %w; (R08g) the size PatchSet.Apply truncates the file to in place is assigned from the last patch, not maximised against the old size. (R08h) the in-place strategy of PatchSet.Apply is taken only when every patch but the last keeps its size and the last one ends at the end of the file (the rules of C12 R12e), so replacing a signature slot by a shorter one never cuts off what follows it; (R08i) DefaultsFromSignature takes entitlements and flags over from the signature being replaced but never its requirements. (R08k) every site of lib/comdoc that chooses between the sector table and the short-sector table tests the stream size against MinStdStreamSize with the same predicate (C18 R18e): the signature stream replaced on re-signing is freed in the table it was stored in. (R08j) msiDecodeName compares a code unit only with constants above every code unit of the stream names DigestMsiTar skips and has a branch appending the unit itself, so an existing signature stream reaches the tar digest under the name that is skipped.",
+			Explanation: "Decides structural necessary conditions (nothing is executed): (R08a) for every registered signer that can both sign and verify, a sigerrors.NotSignedError value is constructed somewhere in the code reachable from its verifier (frozen, reasoned exceptions: pgp, where an unsigned input is not an OpenPGP message at all), and Signer.IsSigned calls the verifier with digest checking off, answers true on a nil error, false on exactly NotSignedError and passes every other error on; (R08b) both sides of each container format agree on what belongs to the signature: the MSI digesters and the tar digester skip the two signature streams; the JAR digester and the JAR patch builder consult one keepFile predicate, the VSIX mangler deletes exactly what its keepFile rejects and digests the rest; DigestXapTar strips the trailer from the directory before hashing it; the Debian signer neither digests _gpg* members nor leaves the member of the same role in place; xmldsig.Sign removes an existing Signature before digesting; (R08c) formats whose signature is a trailer after the container: the client transform of the XAP signer determines where the zip ends from the trailer, as the verifier does, before looking for the central directory; (R08d) replacement is exact: the Debian signer marks a member for replacement only under equality of its name with \"_gpg\"+role, InsertMSISignature adds or deletes each of the two signature streams on every success path, and DigestPE feeds nothing into the image digest after imageHasher.finish(). (R08e) every value that reaches InsertMSISignature as the extended digest is nil or the result of PrehashMSI called with SignOpts.Hash (never a stream read back from the file); (R08f) Signer.IsSigned tells NotSignedError and ErrNoKey apart with a type switch, so no value that may be one of them (followed through results, phis and parameters module-wide) is passed to fmt.Errorf with %w; (R08g) the size PatchSet.Apply truncates the file to in place is assigned from the last patch, not maximised against the old size. (R08h) the in-place strategy of PatchSet.Apply is taken only when every patch but the last keeps its size and the last one ends at the end of the file (the rules of C12 R12e), so replacing a signature slot by a shorter one never cuts off what follows it; (R08i) DefaultsFromSignature takes entitlements and flags over from the signature being replaced but never its requirements. (R08k) every site of lib/comdoc that chooses between the sector table and the short-sector table tests the stream size against MinStdStreamSize with the same predicate (C18 R18e): the signature stream replaced on re-signing is freed in the table it was stored in. (R08j) msiDecodeName compares a code unit only with constants above every code unit of the stream names DigestMsiTar skips and has a branch appending the unit itself, so an existing signature stream reaches the tar digest under the name that is skipped. (R08l) the span signdeb.Sign removes for the old signature member is the header plus the member size rounded up to even (C01 R01n / C03 R03h); (R08m) the PowerShell text size, which decides what a second signing run digests and where the old block is cut, is a sum of lengths of lines read from the input (C01 R01e).",
 			NotDecided:  "equality of content digests with and without an existing signature (PE checksum/certificate-table fields, CAB reserve area, Mach-O load commands are value-level offsets), validity of the artifact after n signing rounds, payload equality. pocs/C08_resign.sh exercises three rounds per fixture format as supporting evidence outside the static check.",
 			Assumptions: []string{"the signer registry consists of the signers.Signer literals passed to signers.Register"},
 		},
@@ -36,6 +36,7 @@ var c08NoNotSigned = map[string]string{
 }
 
 func runC08(c *Ctx) {
+	defer round7C08(c)
 	c.Rule("R08a", "\"not signed\" is a distinguishable verdict of every verifier and IsSigned maps exactly it to false", 18)
 	c.Rule("R08b", "signing and verifying agree on which members/regions belong to the signature", 10)
 	c.Rule("R08c", "trailer formats find the end of the container from the trailer when signing again", 2)
